@@ -33,7 +33,8 @@ Proved here, for every program of any nesting and every state (`EnvOk`):
   address in any state (`lhsMask_covers`), so after the commit every bit an active assignment wrote holds the
   last value written to it, every other masked bit holds what the process started from, and every unmasked bit
   of every signal is as the other processes left it. `sync_process_writes`: hence a synchronous process (which
-  starts from the current values) changes the shared state by exactly its active writes.
+  starts from the current values) changes the shared state by exactly its active writes; `comb_process`: a
+  combinational process leaves a driven bit that no active assignment writes at its initial value.
 
 Not proved for all inputs (compared on every run): that the masked bits are *only* the statically driven ones
 (the Spec's `progDrives`; the masks over-approximate below part-selects by construction).
@@ -127,6 +128,19 @@ theorem sync_process_program (ctx : Ctx) (cur : Env) (hok : EnvOk ctx cur) (prog
     fun w hw => htg _ (stmtWrites_targets ctx cur _ w hw)
   rw [← (applyWritesRtl_eq_spec ctx cur hok _ hws acc hA).1, ← execRtl_eq_writes,
       statements_spec ctx cur hok prog h ht acc hA]
+
+/-- A combinational process: a driven bit holds the last value an active assignment wrote to it in this state, or its
+initial value when no assignment is active for it; other bits are as the other processes left them. -/
+theorem comb_process (ctx : Ctx) (cur : Env) (hok : EnvOk ctx cur) (inits : Env) (hI : EnvN ctx inits) (body : Stmt)
+    (acc : Env) (hC : EnvN ctx cur) (hA : EnvN ctx acc)
+    (htg : ∀ e ∈ stmtTargets body, e.twf ctx = true ∧ e.noAlias ctx cur)
+    (i b : Nat) (hi : i < ctx.length) (hb : b < (ctx.shape i).width) :
+    bitAt (commitInto ctx body (combNext ctx inits body cur) acc) i b =
+      match wbit ctx cur (stmtWrites ctx cur body) i b with
+      | some x => x
+      | none =>
+        if ibit ((stmtMask ctx body (List.replicate ctx.length 0)).get i) b then bitAt inits i b else bitAt acc i b :=
+  comb_process_bits ctx cur hok inits hI body acc hC hA htg i b hi hb
 
 /-! ### F9: without `noAlias` the compiled assignment is not the Spec's
 
